@@ -24,6 +24,7 @@ CLAIM = (
     "max_shift) the estimator returns the applied shift modulo the cell: exactly for integer shifts, within 1/upsample_factor (one pixel "
     "on the code paths that do not upsample) for sub-pixel shifts; shifting the second image by the result reproduces the first; the returned aligned image "
     "equals an independent Fourier translation; identical images give zero; swapping the images negates the result; inputs are neither modified nor aliased by the result; and on REUSED buffers (the same array/tensor objects refilled in place, every ordered pair/triple of cases) each call returns the shift of the current contents."
+    " Further enumerated dimensions: legal spellings / dtypes / memory layouts judged against the canonical call, refills that do not bump the tensor version (from_numpy buffers, .data), image scale 1e-30..1e+30 (float64) and 1e-8..1e+8 (float32) judged by scale invariance at generic (tie-free, guarded) shifts, torch process-wide modes (default dtype float64, no_grad, inference_mode, thread count), and re-entrant calls from an argument's __array__."
 )
 NOTE = (
     "Trusted: the exact Fourier-shift ground truth (Nyquist-free, band-limited images with a checked unique correlation peak) and the "
